@@ -32,10 +32,13 @@
 (*       (new members of BadSpanStart / BadSpanEnd / BadLeaf, Leaked),      *)
 (*   L2: the recorded step is the O part of the action, for the repaired    *)
 (*       and for the as-written variant of the transcription; a trace is    *)
-(*       rejected (L2) when it is consistently neither.                     *)
+(*       rejected (L2) when it is consistently neither.  Steps are accepted  *)
+(*       under the guards of the as-written caller (StreamsAwaited = FALSE), *)
+(*       so that executions in which tasks are left behind are judged, too.  *)
 (* Output: <<"V", id, line, "L1", clauses>>, <<"D", id, line, n, s, e, hs,  *)
 (* he>> (detail for a failing context), <<"V", id, line, "L2", {}>>,        *)
-(* <<"N", id, fix, pin>> for traces on which the variants differ,           *)
+(* <<"N", id, fix, pin, strict>> for traces on which the variants differ    *)
+(* or which leave the structured usage discipline (judged all the same),    *)
 (* <<"DONE", #traces, #events>>.                                            *)
 (***************************************************************************)
 EXTENDS ReqContext, Json, IOUtils
@@ -47,12 +50,14 @@ VARIABLES tid,      \* index of the current trace
           nev,      \* events consumed so far
           fix,      \* every step of the current trace so far is a step of the repaired transcription
           pin,      \* ... of the as-written transcription
-          badl      \* first line that is a step of neither (0: none)
+          badl,     \* first line that is a step of neither (0: none)
+          strict    \* every step so far obeys the structured usage discipline (StreamsAwaited = TRUE): no task left a block or
+                    \* ended while tasks it created inside were still running
 
-tvars == <<vars, tid, l, nev, fix, pin, badl>>
+tvars == <<vars, tid, l, nev, fix, pin, badl, strict>>
 
 TInit == /\ InitWith(IF Len(Traces) > 0 THEN Range(Traces[1].roots) ELSE {})
-         /\ tid = 1 /\ l = 1 /\ nev = 0 /\ fix = TRUE /\ pin = TRUE /\ badl = 0
+         /\ tid = 1 /\ l = 1 /\ nev = 0 /\ fix = TRUE /\ pin = TRUE /\ badl = 0 /\ strict = TRUE
 
 TraceTasks == 1..128
 NoTasks == {}
@@ -67,6 +72,7 @@ Reset(R) ==
     /\ ctx' = <<>> /\ par' = <<>> /\ open' = <<>> /\ owner' = <<>> /\ lpar' = <<>> /\ sub' = <<>> /\ hs' = <<>> /\ he' = <<>>
     /\ nwire' = 0
     /\ chunks' = 0
+    /\ fail' = [t \in Tasks |-> FALSE]
     /\ act' = [name |-> "Init", t |-> 0, u |-> 0, last |-> FALSE, raised |-> FALSE]
 
 Delta(c, d) ==
@@ -75,20 +81,20 @@ Delta(c, d) ==
         THEN LET i == CHOOSE j \in 1..Len(d) : d[j][1] = n IN [s |-> d[i][2], e |-> d[i][3]]
         ELSE c[n]]
 
-Guard(e) ==
+Guard(sa, e) ==
     CASE e.a = "Enter"     -> EnterG(e.t)
       [] e.a = "WireStart" -> WireStartG(e.t, e.tau)
       [] e.a = "WireEnd"   -> WireEndG(e.t, e.tau)
-      [] e.a = "Exit"      -> ExitG(e.t)
+      [] e.a = "Exit"      -> ExitG(sa, e.t)
       [] e.a = "Spawn"     -> SpawnG(e.t, e.u)
-      [] e.a = "Join"      -> JoinG(e.t, e.u)
+      [] e.a = "Join"      -> JoinG(sa, e.t, e.u)
       [] OTHER             -> FALSE
 
 Structure(e) ==
     CASE e.a = "Enter"     -> EnterS(e.t)
       [] e.a = "WireStart" -> WireStartS(e.t, e.tau)
       [] e.a = "WireEnd"   -> WireEndS(e.t, e.last, e.tau)
-      [] e.a = "Exit"      -> ExitS(e.t)
+      [] e.a = "Exit"      -> ExitS(e.t, e.raised)
       [] e.a = "Spawn"     -> SpawnS(e.t, e.u)
       [] e.a = "Join"      -> JoinS(e.t, e.u)
 
@@ -96,7 +102,7 @@ Recorded(e) ==
     /\ ctx' = Delta(IF e.a = "Enter" THEN Append(ctx, Fresh) ELSE ctx, e.d)
     /\ par' = IF e.a = "Enter" THEN Append(par, e.par) ELSE par
     /\ cur' = CASE e.a = "Spawn" -> [cur EXCEPT ![e.t] = e.cur, ![e.u] = e.ucur]
-                [] e.a = "Join"  -> [cur EXCEPT ![e.t] = e.cur, ![e.u] = 0]
+                [] e.a = "Join"  -> [cur EXCEPT ![e.u] = 0]      \* t only awaits (and may itself have ended: as-written caller)
                 [] OTHER         -> [cur EXCEPT ![e.t] = e.cur]
 
 Effect(mm, e) ==
@@ -123,6 +129,7 @@ Step(id, e) ==
            okPin == Effect(FALSE, e)
        IN /\ IF l1 = {} THEN TRUE
              ELSE PrintT(<<"V", id, l, "L1", l1>>) /\ Detail(id, newStart \cup newEnd \cup newLeaf \cup leaked)
+          /\ strict' = (strict /\ Guard(TRUE, e))
           /\ fix' = (fix /\ okFix)
           /\ pin' = (pin /\ okPin)
           /\ badl' = IF badl = 0 /\ ~(fix /\ okFix) /\ ~(pin /\ okPin) THEN l ELSE badl
@@ -144,7 +151,7 @@ Sample(id, e) ==
                           = Cardinality({k \in SubRequests(n) : hs[k] = hs[m] /\ he[k] = he[m]})
         l1 == (IF span THEN {} ELSE {"SampleSpan"}) \cup (IF dep THEN {} ELSE {"DependentExact"})
     IN /\ IF l1 = {} THEN TRUE ELSE PrintT(<<"V", id, l, "L1", l1>>)
-       /\ UNCHANGED <<vars, fix, pin, badl>>
+       /\ UNCHANGED <<vars, fix, pin, badl, strict>>
 
 Consume ==
     /\ tid <= Len(Traces)
@@ -152,10 +159,10 @@ Consume ==
     /\ LET e  == Traces[tid].ev[l]
            id == Traces[tid].id
        IN IF e.a = "Sample" THEN Sample(id, e) /\ l' = l + 1
-          ELSE IF Guard(e) THEN Step(id, e) /\ l' = l + 1
-          ELSE \* not an execution of the usage discipline the specification describes: harness error or unknown behaviour
+          ELSE IF Guard(FALSE, e) THEN Step(id, e) /\ l' = l + 1
+          ELSE \* not an execution of any usage discipline the specification describes: harness error or unknown behaviour
                /\ PrintT(<<"V", id, l, "L2", {}>>)
-               /\ UNCHANGED <<vars, fix, pin>>
+               /\ UNCHANGED <<vars, fix, pin, strict>>
                /\ badl' = 0
                /\ l' = Len(Traces[tid].ev) + 1
     /\ nev' = nev + 1 /\ tid' = tid
@@ -164,9 +171,9 @@ NextTrace ==
     /\ tid <= Len(Traces)
     /\ l > Len(Traces[tid].ev)
     /\ IF fix \/ pin \/ badl = 0 THEN TRUE ELSE PrintT(<<"V", Traces[tid].id, badl, "L2", {}>>)
-    /\ IF fix THEN TRUE ELSE PrintT(<<"N", Traces[tid].id, fix, pin>>)
+    /\ IF fix /\ strict THEN TRUE ELSE PrintT(<<"N", Traces[tid].id, fix, pin, strict>>)
     /\ Reset(IF tid < Len(Traces) THEN Range(Traces[tid + 1].roots) ELSE {})
-    /\ tid' = tid + 1 /\ l' = 1 /\ nev' = nev /\ fix' = TRUE /\ pin' = TRUE /\ badl' = 0
+    /\ tid' = tid + 1 /\ l' = 1 /\ nev' = nev /\ fix' = TRUE /\ pin' = TRUE /\ badl' = 0 /\ strict' = TRUE
     /\ IF tid < Len(Traces) THEN TRUE ELSE PrintT(<<"DONE", Len(Traces), nev>>)
 
 TNext == Consume \/ NextTrace
